@@ -88,8 +88,20 @@ def gen_sonar_entry(rng, i, hotspot):
             del e["textRange"]["endOffset"]
     elif r < 0.9:
         e["textRange"] = rng.choice([None, {}])
-    if rng.random() < 0.2:
-        e["flows"] = [{"locations": [{"component": e["component"], "textRange": {"startLine": 1, "endLine": 1, "startOffset": 0, "endOffset": 1}}]}]
+    if rng.random() < 0.3:
+        good = {"component": e["component"], "textRange": {"startLine": 1, "endLine": 1, "startOffset": 0, "endOffset": 1}}
+        # code flows are built (and can raise) for every open entry although they are not findings; mostly well-formed,
+        # sometimes each of the shapes SonarLocation.from_json_location / the comprehensions trip over
+        e["flows"] = rng.choice([
+            [{"locations": [good]}], [{"locations": [good]}], [{"locations": [good, dict(good)]}, {"locations": []}], [], [{}],
+            [{"locations": [{"component": e["component"], "msg": "x"}]}],                 # no textRange
+            [{"locations": [{"textRange": good["textRange"]}]}],                          # no component
+            [{"locations": [dict(good, textRange={})]}], [{"locations": [dict(good, textRange=None)]}],
+            [{"locations": None}], [{"locations": {}}], [{"locations": {"a": 1}}], [{"locations": ""}], [{"locations": [7]}],
+            None, {}, {"a": 1}, "", "x", 3, ["x"], [None],
+        ])
+    if rng.random() < 0.12:
+        e["message"] = rng.choice([5, 0, None, "", [], ["m"], {}, {"m": 1}, True, False])
     return e
 
 
@@ -253,17 +265,28 @@ def run(ctx: core.Ctx):
             meta.append((label, doc, obs))
             ctx.case({"reader": kind, "doc": doc, "observed": obs}, nontrivial_key=(kind, json.dumps(doc, sort_keys=True)) if obs else None,
                      sample=bool(obs) and len(obs) >= 2 and kind == "sonar")
-        bad = core.eval_bad_indices(ctx, f"c12_{kind}", IMPORTS, "reader_case", cases, [mok, sok], chunk=150)
+        extra = ["sonar_not_like_pinned", "sonar_not_like_perfile"] if kind == "sonar" else []
+        bad = core.eval_bad_indices(ctx, f"c12_{kind}", IMPORTS, "reader_case", cases, [mok, sok] + extra, chunk=150)
         for i in bad[mok]:
             label, doc, obs = meta[i]
             ctx.mismatch(f"{kind} reader vs Model ({mok})", f"reader output differs from the model on a {label} document",
                          {"reader": kind, "doc": doc, "observed": obs})
         for i in bad[sok]:
             label, doc, obs = meta[i]
-            cls = "kf_sonar_hotspots_ignored" if (kind == "sonar" and doc.get("issues") and doc.get("hotspots")) else f"kf_{kind}_reader"
+            # a failure is classified by what was OBSERVED, not by the shape of the input: the known classes are exactly
+            # "the output is what the pinned select expression gives" / "... what the per-file try/except gives"
+            cls = f"kf_{kind}_reader"
+            if kind == "sonar":
+                like_perfile = i in bad["sonar_not_like_perfile"]     # checker false = the observation IS like that form
+                like_pinned = i in bad["sonar_not_like_pinned"]
+                if like_perfile:
+                    cls = "kf_sonar_malformed_entry_drops_file"
+                elif like_pinned:
+                    cls = "kf_sonar_hotspots_ignored"
             ctx.violation(cls, f"{kind} reader does not file the reference extraction of a {label} document: observed {obs}",
                           {"reader": kind, "doc": doc, "observed": obs,
-                           "expected": "every open issue and hotspot with a textRange / every location of every result of every run"})
+                           "expected": "every individually readable open issue and hotspot with a textRange / every location of every "
+                                       "result of every run (a reader may raise only on a document with an unreadable element)"})
 
 
 # ---------------------------------------------------------------------------------------------- detect_sarif_tools
